@@ -24,17 +24,22 @@ Theorem C04_btc_scan_exact : forall head blk conf,
 Proof. exact btc_scan_exact. Qed.
 Print Assumptions C04_btc_scan_exact.
 
-(* History form: for every head-growth history (any list of heads, any start, any conf), a block
-   is handled only at a poll whose head buries it deep enough ... *)
-Theorem C04_scan_safe : forall cur conf k heads k' b,
-  In (k', b) (scan cur conf k heads) ->
-  exists h, nth_error heads (N.to_nat (k' - k)) = Some h /\ conf + 1 <= confirmations h b.
+(* History form: for every history of polls - head lookups that were answered with any height or
+   that failed -, any start, any conf: a block is handled only at a poll that was answered and whose
+   head buries it deep enough, never at a poll whose head lookup failed ... *)
+Theorem C04_scan_safe : forall cur conf k polls k' b,
+  In (k', b) (scan cur conf k polls) ->
+  exists h, nth_error polls (N.to_nat (k' - k)) = Some (Some h) /\ conf + 1 <= confirmations h b.
 Proof. exact scan_safe. Qed.
 Print Assumptions C04_scan_safe.
 
+Theorem C04_scan_failed_poll : forall cur conf k r b, ~ In (k, b) (scan cur conf k (None :: r)).
+Proof. exact scan_failed_poll. Qed.
+Print Assumptions C04_scan_failed_poll.
+
 (* ... and is handled at the very poll at which it has one confirmation more than required. *)
 Theorem C04_scan_live : forall c conf k h r,
-  conf + 1 <= confirmations h c -> In (k, c) (scan (Some c) conf k (h :: r)).
+  conf + 1 <= confirmations h c -> In (k, c) (scan (Some c) conf k (Some h :: r)).
 Proof. exact scan_live_now. Qed.
 Print Assumptions C04_scan_live.
 
@@ -71,17 +76,27 @@ Theorem C04_btc_accept_fits_int64 : forall p head blk conf,
 Proof. exact btc_accept_fits_int64. Qed.
 Print Assumptions C04_btc_accept_fits_int64.
 
-Theorem C04_hist_ok_model : forall cur conf k heads,
-  hist_ok cur conf k heads (scan cur conf k heads) = true.
+Theorem C04_hist_ok_model : forall cur best conf k polls,
+  hist_ok cur best conf k polls (scan cur conf k polls) = true.
 Proof. exact hist_ok_model. Qed.
 Print Assumptions C04_hist_ok_model.
 
-(* ... and whatever observation it accepts satisfies the safety statement. *)
-Theorem C04_hist_ok_safe : forall cur conf k heads obs k' b,
-  hist_ok cur conf k heads obs = true -> In (k', b) obs ->
-  exists h, nth_error heads (N.to_nat (k' - k)) = Some h /\ conf <= confirmations h b /\ (k <= k')%N.
+(* ... whatever observation it accepts satisfies the safety statement: every handled block had its
+   confirmations under a head the loop had been served by then (at that poll or an earlier one; a
+   failed lookup is no head) - however many blocks a poll handled ... *)
+Theorem C04_hist_ok_safe : forall cur conf k polls obs k' b,
+  hist_ok cur None conf k polls obs = true -> In (k', b) obs ->
+  exists j h, (j <= N.to_nat (k' - k))%nat /\ nth_error polls j = Some (Some h) /\
+    conf <= confirmations h b /\ (k <= k')%N.
 Proof. exact hist_ok_safe. Qed.
 Print Assumptions C04_hist_ok_safe.
+
+(* ... and the liveness statement: a poll served a head under which the cursor block has a
+   confirmation to spare handled it. *)
+Theorem C04_hist_ok_live : forall c best conf k h r obs,
+  hist_ok (Some c) best conf k (Some h :: r) obs = true -> conf + 1 <= confirmations h c -> In (k, c) obs.
+Proof. exact hist_ok_live. Qed.
+Print Assumptions C04_hist_ok_live.
 
 (* ---- several retry requests in one range / batch, and concurrent evaluations on one handler ----
    The judge of a batch, a sequence or a concurrent schedule of guard evaluations is the
@@ -132,6 +147,56 @@ Theorem C04_batch_pointwise : forall p head conf (obs : list (list Z)),
 Proof. exact batch_pointwise. Qed.
 Print Assumptions C04_batch_pointwise.
 
+(* ---- the lookups that establish the bound (head / finalized head) may fail, stall or advance ----
+   The unchanged code - one lookup per evaluation, decided on its answer, an error ends the
+   evaluation - is accepted whatever else the handler has been served, before or afterwards ... *)
+Theorem C04_lookup_ok_model : forall p answers a oblk conf,
+  In a answers -> lookup_ok p answers oblk conf (processed_opt p a oblk conf) = true.
+Proof. exact lookup_ok_model. Qed.
+Print Assumptions C04_lookup_ok_model.
+
+(* ... also along a whole script on one long-lived handler (evaluation i decides on answer i, the
+   handler having been served the answers 0..i), which is judged evaluation by evaluation ... *)
+Theorem C04_scripted_ok_model : forall p conf seen script blks,
+  scripted_ok p conf
+    (combine (combine blks (served_so_far seen script blks)) (scripted_model p conf script blks)) = true.
+Proof. exact scripted_ok_model_gen. Qed.
+Print Assumptions C04_scripted_ok_model.
+
+Theorem C04_scripted_pointwise : forall p conf evs,
+  scripted_ok p conf evs = true <->
+  Forall (fun e => match e with (oblk, served, blocks) => lookup_ok p served oblk conf blocks = true end) evs.
+Proof. exact scripted_pointwise. Qed.
+Print Assumptions C04_scripted_pointwise.
+
+(* ... whatever the judge accepts processed something only if the event block was known, and only
+   blocks buried deep enough under a head that was really served to this evaluation ... *)
+Theorem C04_lookup_ok_safe : forall p answers oblk conf blocks b,
+  lookup_ok p answers oblk conf blocks = true -> In b blocks ->
+  exists h blk, In (Some h) answers /\ oblk = Some blk /\
+    (uses_conf p = true -> conf <= confirmations h b) /\ (uses_conf p = false -> b <= h).
+Proof. exact lookup_ok_safe. Qed.
+Print Assumptions C04_lookup_ok_safe.
+
+(* ... so when every lookup failed nothing was processed (an error or a skip are both fine). *)
+Theorem C04_lookup_ok_all_failed : forall p answers oblk conf blocks,
+  (forall a, In a answers -> a = None) -> lookup_ok p answers oblk conf blocks = true -> blocks = [].
+Proof. exact lookup_ok_all_failed. Qed.
+Print Assumptions C04_lookup_ok_all_failed.
+
+(* One range whose one bound lookup may fail. *)
+Theorem C04_batch_opt_model : forall p ohead conf blks,
+  bound_ok p ohead conf (batch_model_opt p ohead conf blks) = true.
+Proof. exact batch_opt_model. Qed.
+Print Assumptions C04_batch_opt_model.
+
+Theorem C04_bound_ok_safe : forall p obound conf blocks b,
+  bound_ok p obound conf blocks = true -> In b blocks ->
+  exists h, obound = Some h /\
+    (uses_conf p = true -> conf <= confirmations h b) /\ (uses_conf p = false -> b <= h).
+Proof. exact bound_ok_safe. Qed.
+Print Assumptions C04_bound_ok_safe.
+
 (* EVM retry by transaction hash over receipts with logs, "null" block numbers included. *)
 Theorem C04_txs_ok_model : forall conf evs, txs_ok conf evs (txs_model conf evs) = true.
 Proof. exact txs_ok_model. Qed.
@@ -153,7 +218,14 @@ Print Assumptions C04_tx_ok_safe.
 Example C04_nonvacuous :
   accept BtcScan 105 100 5 = true /\ accept BtcScan 104 100 5 = false /\
   accept EvmRetryMsg 106 100 5 = true /\ accept EvmRetryMsg 105 100 5 = false /\
-  scan None 2 0%N [10; 11; 12; 12; 14] = [(2%N, 10); (4%N, 11)] /\
+  scan None 2 0%N [Some 10; Some 11; Some 12; None; Some 12; Some 14] = [(2%N, 10); (5%N, 11)] /\
+  (* a backlog: the unchanged loop handles one block per poll; an observation with several buried
+     blocks at one poll is accepted, one that runs up to head - 1 is not *)
+  hist_ok (Some 100) None 6 0%N [Some 200] [(0%N, 100); (0%N, 101); (0%N, 102)] = true /\
+  hist_ok (Some 193) None 6 0%N [Some 200] [(0%N, 193); (0%N, 194); (0%N, 195); (0%N, 196)] = false /\
+  (* a block handled at a poll whose head lookup failed: fine if an earlier head buries it, not without *)
+  hist_ok (Some 100) None 6 0%N [Some 200; None] [(0%N, 100); (1%N, 101)] = true /\
+  hist_ok (Some 100) None 6 0%N [None; Some 200] [(0%N, 100)] = false /\
   (* beyond the 32-bit boundary: a height whose low 32 bits are below the finalized head *)
   in_domain SubRetryEvt 100 (2 ^ 32 + 95) = true /\ accept SubRetryEvt 100 (2 ^ 32 + 95) 0 = false /\
   single_ok SubRetryEvt 100 (2 ^ 32 + 95) 0 [2 ^ 32 + 95] = false /\
@@ -167,6 +239,20 @@ Example C04_nonvacuous :
   eval_ok EvmRetryTx (Some 1000000) None 5 [0] = false /\ eval_ok EvmRetryTx (Some 1000000) None 5 [] = true /\
   (* one range, finalized head 100, three Retry events *)
   batch_model SubRetryEvt 100 0 [101; 100; 101] = [100] /\ batch_ok SubRetryEvt 100 0 [100; 101] = false /\
+  (* the finalized-head lookup of the range failed: nothing may be relayed *)
+  batch_model_opt SubRetryEvt None 0 [105] = [] /\ bound_ok SubRetryEvt None 0 [105] = false /\
+  (* retry of a deposit in block 14, 5 confirmations: the head stalls at 17 - returning the deposit
+     after five polls is rejected; a head that advances to 20 while the call waits is fine; a failed
+     lookup followed by nothing else is no bound *)
+  lookup_model EvmRetryTx [Some 17; Some 17] (Some 14) 5 = [] /\
+  lookup_ok EvmRetryTx [Some 17; Some 17; Some 17; Some 17; Some 17; Some 17] (Some 14) 5 [14] = false /\
+  lookup_ok EvmRetryTx [Some 17; Some 18; Some 20] (Some 14) 5 [14] = true /\
+  lookup_ok SubRetryEvt [None] (Some 105) 0 [105] = false /\
+  (* a handler that was served head 200 before: its second call, whose lookup fails, may rely on 200 -
+     for block 150, not for block 205 *)
+  scripted_model EvmRetryMsg 5 [Some 200; None] [Some 100; Some 150] = [[100; 100]; []] /\
+  scripted_ok EvmRetryMsg 5 [(Some 100, [Some 200], [100; 100]); (Some 150, [Some 200; None], [150; 150])] = true /\
+  scripted_ok EvmRetryMsg 5 [(Some 100, [Some 200], [100; 100]); (Some 205, [Some 200; None], [205; 205])] = false /\
   (* receipts: mined in 94 at head 100 (5 confirmations) with a foreign log; in no block at all *)
   txs_model 5 [(true, Some 100, Some 94, [(true, Some 94); (false, Some 94); (true, Some 94)]);
                (true, Some 100, None, [(true, None)])] = [[0%N; 2%N]; []] /\
